@@ -15,6 +15,7 @@ import (
 	"flag"
 	"fmt"
 	"os"
+	"runtime"
 	"sort"
 	"strings"
 	"sync"
@@ -66,6 +67,15 @@ type SchedCfg struct {
 	Sched   []int   `json:"sched"`
 }
 
+// BurstCfg: Producers goroutines, released together, each insert Items[k%len]
+// PerProd times round-robin starting at its own offset; nobody consumes.
+type BurstCfg struct {
+	Producers int   `json:"producers"`
+	PerProd   int   `json:"per_producer"`
+	Items     []int `json:"items"`
+	Closers   int   `json:"closers"`
+}
+
 // StressCfg is the input of a stress case.
 type StressCfg struct {
 	Producers int    `json:"producers"`
@@ -85,6 +95,16 @@ type Case struct {
 	FinalBlocked bool      `json:"final_blocked,omitempty"`
 	FinalLen     int       `json:"final_len,omitempty"`
 
+	Bulk    [][2]int       `json:"bulk,omitempty"` // (item, repeat) script
+	News    []int          `json:"news,omitempty"`
+	Dels    [][2]int       `json:"dels,omitempty"`
+	Broken  bool           `json:"broken,omitempty"`
+	Burst   *BurstCfg      `json:"burst,omitempty"`
+	BurstIn [][3]int       `json:"burst_ins,omitempty"` // item, calls, trues
+	Ping    int            `json:"ping,omitempty"`      // rounds
+	Stalled bool           `json:"stalled,omitempty"`
+	CtxErr  string         `json:"ctxerr,omitempty"` // cancelled | short
+	ErrKind string         `json:"errkind,omitempty"`
 	Stress  *StressCfg     `json:"stress,omitempty"`
 	Ins     map[string]int `json:"ins,omitempty"`
 	Del     map[string]int `json:"del,omitempty"`
@@ -92,6 +112,61 @@ type Case struct {
 	Hang    bool           `json:"hang,omitempty"`
 	Comment string         `json:"comment,omitempty"`
 }
+
+// Items are small ids in the cases; the Go values handed to the queue are of
+// several types (equal-looking values of different types are different keys,
+// nil is a legal item, pointers compare by identity).
+type pt struct{ a int }
+
+var ptrA, ptrB = &pt{1}, &pt{1}
+
+func itemVal(id int) interface{} {
+	switch id {
+	case 3:
+		return "1"
+	case 4:
+		return int64(1)
+	case 5:
+		return nil
+	case 6:
+		return ptrA
+	case 7:
+		return ptrB
+	case 8:
+		return pt{1}
+	}
+	return id
+}
+
+func itemID(v interface{}) (int, bool) {
+	switch x := v.(type) {
+	case nil:
+		return 5, true
+	case int:
+		if x == 3 || x == 4 || x == 5 || x == 6 || x == 7 || x == 8 {
+			return 0, false
+		}
+		return x, true
+	case string:
+		return 3, x == "1"
+	case int64:
+		return 4, x == 1
+	case *pt:
+		if x == ptrA {
+			return 6, true
+		}
+		return 7, x == ptrB
+	case pt:
+		return 8, x.a == 1
+	}
+	return 0, false
+}
+
+// hangs counts calls that did not return; after a few the rest of the run is
+// cut short (every further case would wait for the watchdog again).
+var hangs int32
+
+func tooManyHangs() bool { return atomic.LoadInt32(&hangs) >= 3 }
 
 const (
 	tidCons   = 100
@@ -113,7 +188,7 @@ type nextRes struct {
 func classifyNext(i interface{}, d uint32, err error) nextRes {
 	switch {
 	case err == nil:
-		x, ok := i.(int)
+		x, ok := itemID(i)
 		if !ok {
 			return nextRes{kind: "other"}
 		}
@@ -142,6 +217,7 @@ func applyOp(q *coalesce.Queue, o Op) (res Obs, hung bool) {
 	case r := <-ch:
 		return r, false
 	case <-time.After(hangAfter):
+		atomic.AddInt32(&hangs, 1)
 		if o.K == "next" {
 			return Obs{Kind: "next", R: "hang"}, true
 		}
@@ -152,7 +228,7 @@ func applyOp(q *coalesce.Queue, o Op) (res Obs, hung bool) {
 func applyOp1(q *coalesce.Queue, o Op) Obs {
 	switch o.K {
 	case "insert":
-		ok, err := q.Insert(o.I)
+		ok, err := q.Insert(itemVal(o.I))
 		switch {
 		case err == nil && ok:
 			return Obs{Kind: "ins", R: "new"}
@@ -294,7 +370,7 @@ func runSched(cfg SchedCfg, decide func(ready []int, k int) int) schedResult {
 		byID[n] = s.Spawn(n, fmt.Sprintf("producer%d", n), len(prog), func(t *Thread) {
 			for _, it := range prog {
 				atomic.AddInt32(&t.Left, -1)
-				ok, err := q.Insert(it)
+				ok, err := q.Insert(itemVal(it))
 				r := "new"
 				switch {
 				case err != nil && coalesce.IsClosedQueue(err) && !ok:
@@ -371,6 +447,7 @@ func runSched(cfg SchedCfg, decide func(ready []int, k int) int) schedResult {
 			}
 		}
 		if res.broken {
+			atomic.AddInt32(&hangs, 1)
 			break
 		}
 	}
@@ -488,8 +565,211 @@ func runStress(cfg StressCfg) (ins, del map[string]int, closedSeen, hang bool) {
 	case closedSeen = <-done:
 	case <-time.After(20 * time.Second):
 		hang = true
+		atomic.AddInt32(&hangs, 1)
 	}
 	return
+}
+
+// guarded runs f under recover and a watchdog.
+func guarded(d time.Duration, f func()) (broken bool) {
+	done := make(chan bool, 1)
+	go func() {
+		defer func() {
+			if r := recover(); r != nil {
+				done <- true
+			}
+		}()
+		f()
+		done <- false
+	}()
+	select {
+	case b := <-done:
+		return b
+	case <-time.After(d):
+		atomic.AddInt32(&hangs, 1)
+		return true
+	}
+}
+
+// drain closes q and collects deliveries until "closed" (at most limit).
+func drain(q *coalesce.Queue, limit int) (dels [][2]int, ok bool) {
+	q.Close()
+	for k := 0; k <= limit; k++ {
+		i, d, err := q.Next(context.Background())
+		if err != nil {
+			return dels, coalesce.IsClosedQueue(err)
+		}
+		id, good := itemID(i)
+		if !good {
+			return dels, false
+		}
+		dels = append(dels, [2]int{id, int(d)})
+	}
+	return dels, false
+}
+
+func runBulk(script [][2]int) (news []int, length int, dels [][2]int, broken bool) {
+	broken = guarded(60*time.Second, func() {
+		q := coalesce.NewQueue()
+		distinct := map[int]bool{}
+		for _, e := range script {
+			n := 0
+			v := itemVal(e[0])
+			for k := 0; k < e[1]; k++ {
+				ok, err := q.Insert(v)
+				if err != nil {
+					panic("bulk: insert refused")
+				}
+				if ok {
+					n++
+				}
+			}
+			news = append(news, n)
+			distinct[e[0]] = true
+		}
+		length = q.Len()
+		var ok bool
+		dels, ok = drain(q, length+len(distinct)+2)
+		if !ok {
+			panic("bulk: drain did not end with closed")
+		}
+	})
+	return
+}
+
+func runBurst(cfg BurstCfg) (ins [][3]int, length int, dels [][2]int, broken bool) {
+	broken = guarded(60*time.Second, func() {
+		q := coalesce.NewQueue()
+		calls := make([]int64, len(cfg.Items))
+		trues := make([]int64, len(cfg.Items))
+		start := make(chan struct{})
+		var wg sync.WaitGroup
+		var bad int32
+		for p := 0; p < cfg.Producers; p++ {
+			p := p
+			wg.Add(1)
+			go func() {
+				defer wg.Done()
+				defer func() {
+					if r := recover(); r != nil {
+						atomic.StoreInt32(&bad, 1)
+					}
+				}()
+				<-start
+				for k := 0; k < cfg.PerProd; k++ {
+					x := (p + k) % len(cfg.Items)
+					ok, err := q.Insert(itemVal(cfg.Items[x]))
+					if err != nil {
+						atomic.StoreInt32(&bad, 1)
+						return
+					}
+					atomic.AddInt64(&calls[x], 1)
+					if ok {
+						atomic.AddInt64(&trues[x], 1)
+					}
+				}
+			}()
+		}
+		close(start)
+		wg.Wait()
+		length = q.Len()
+		// concurrent Close calls: exactly what Close's lock is for
+		startC := make(chan struct{})
+		for c := 0; c < cfg.Closers; c++ {
+			wg.Add(1)
+			go func() {
+				defer wg.Done()
+				defer func() {
+					if r := recover(); r != nil {
+						atomic.StoreInt32(&bad, 1)
+					}
+				}()
+				<-startC
+				q.Close()
+			}()
+		}
+		close(startC)
+		wg.Wait()
+		var ok bool
+		dels, ok = drain(q, length+len(cfg.Items)+2)
+		if !ok || atomic.LoadInt32(&bad) != 0 {
+			panic("burst: broken")
+		}
+		for x, it := range cfg.Items {
+			ins = append(ins, [3]int{it, int(calls[x]), int(trues[x])})
+		}
+	})
+	return
+}
+
+// runPing: one producer and one consumer in lock-step.  The producer inserts
+// an item the moment the previous one was delivered, i.e. while the consumer
+// is on its way from an empty next() into the select -- the window in which a
+// wake-up can be lost.  A round that does not complete within stallAfter is a
+// lost wake-up (nothing else can delay it that long).
+func runPing(rounds int, stallAfter time.Duration) (stalled bool) {
+	q := coalesce.NewQueue()
+	ctx, cancel := context.WithCancel(context.Background())
+	defer cancel()
+	ack := make(chan int, 1)
+	go func() {
+		defer func() { recover() }()
+		for {
+			i, _, err := q.Next(ctx)
+			if err != nil {
+				return
+			}
+			id, _ := itemID(i)
+			ack <- id
+		}
+	}()
+	tm := time.NewTimer(stallAfter)
+	defer tm.Stop()
+	for k := 0; k < rounds; k++ {
+		func() {
+			defer func() { recover() }()
+			q.Insert(k % 3)
+		}()
+		if !tm.Stop() {
+			select {
+			case <-tm.C:
+			default:
+			}
+		}
+		tm.Reset(stallAfter)
+		select {
+		case <-ack:
+		case <-tm.C:
+			atomic.AddInt32(&hangs, 1)
+			return true
+		}
+		if k%7 == 0 {
+			runtime.Gosched()
+		}
+	}
+	return false
+}
+
+func runCtxErr(kind string) string {
+	q := coalesce.NewQueue()
+	ctx, cancel := context.WithCancel(context.Background())
+	if kind == "short" {
+		ctx, cancel = context.WithTimeout(context.Background(), time.Millisecond)
+	} else {
+		cancel()
+	}
+	defer cancel()
+	res := "other"
+	guarded(hangAfter, func() {
+		_, _, err := q.Next(ctx)
+		switch err {
+		case context.Canceled:
+			res = "canceled"
+		case context.DeadlineExceeded:
+			res = "deadline"
+		}
+	})
+	return res
 }
 
 // ---------------------------------------------------------------------------
@@ -614,8 +894,42 @@ func totalsTerm(m map[string]int) string {
 	return vh.List(el)
 }
 
+func pairsTerm(l [][2]int) string {
+	el := make([]string, len(l))
+	for i, p := range l {
+		el[i] = fmt.Sprintf("(%s, %s)", nlit(p[0]), nlit(p[1]))
+	}
+	return vh.List(el)
+}
+
 func caseTerm(c Case) string {
 	switch {
+	case c.Bulk != nil:
+		nw := make([]string, len(c.News))
+		for i, n := range c.News {
+			nw[i] = nlit(n)
+		}
+		return fmt.Sprintf("CBulk %s %s %s %s %s", pairsTerm(c.Bulk), vh.List(nw), vh.Nat(c.FinalLen), pairsTerm(c.Dels), vh.Bool(c.Broken))
+	case c.Burst != nil:
+		el := make([]string, len(c.BurstIn))
+		for i, t := range c.BurstIn {
+			el[i] = fmt.Sprintf("(%s, %s, %s)", nlit(t[0]), nlit(t[1]), nlit(t[2]))
+		}
+		return fmt.Sprintf("CBurst %s %s %s %s", vh.List(el), vh.Nat(c.FinalLen), pairsTerm(c.Dels), vh.Bool(c.Broken))
+	case c.Ping > 0:
+		return fmt.Sprintf("CPing %s %s", nlit(c.Ping), vh.Bool(c.Stalled))
+	case c.CtxErr != "":
+		ck, ek := "CtxCancelled", "EKOther"
+		if c.CtxErr == "short" {
+			ck = "CtxShort"
+		}
+		switch c.ErrKind {
+		case "canceled":
+			ek = "EKCanceled"
+		case "deadline":
+			ek = "EKDeadline"
+		}
+		return fmt.Sprintf("CCtxErr %s %s", ck, ek)
 	case c.S != nil:
 		progs := make([]string, len(c.S.Progs))
 		for i, p := range c.S.Progs {
@@ -747,6 +1061,10 @@ func (e *emitter) addSched(family string, cfg SchedCfg, r schedResult) {
 }
 
 func (e *emitter) addStress(family string, cfg StressCfg) {
+	if tooManyHangs() {
+		e.meta.Hist("skipped-after-hangs")
+		return
+	}
 	ins, del, closed, hang := runStress(cfg)
 	c := Case{Family: family, Stress: &cfg, Ins: ins, Del: del, Closed: closed, Hang: hang}
 	e.meta.Hist("stress-run")
@@ -755,9 +1073,57 @@ func (e *emitter) addStress(family string, cfg StressCfg) {
 	e.emit(c)
 }
 
+func (e *emitter) addBulk(family string, script [][2]int) {
+	if tooManyHangs() {
+		return
+	}
+	news, n, dels, broken := runBulk(script)
+	c := Case{Family: family, Bulk: script, News: news, FinalLen: n, Dels: dels, Broken: broken}
+	b, _ := json.Marshal(script)
+	e.meta.Hist("bulk-run")
+	e.meta.Count(family, "B"+string(b), true, map[string]interface{}{"family": family, "script": script, "news": news, "len": n})
+	e.emit(c)
+}
+
+func (e *emitter) addBurst(family string, cfg BurstCfg) {
+	if tooManyHangs() {
+		return
+	}
+	ins, n, dels, broken := runBurst(cfg)
+	c := Case{Family: family, Burst: &cfg, BurstIn: ins, FinalLen: n, Dels: dels, Broken: broken}
+	e.meta.Hist("burst-run")
+	e.meta.Count(family, fmt.Sprintf("U%v%v", cfg, ins), true, map[string]interface{}{"family": family, "cfg": cfg, "ins": ins, "len": n})
+	e.emit(c)
+}
+
+func (e *emitter) addPing(family string, rounds int) {
+	if tooManyHangs() {
+		return
+	}
+	st := runPing(rounds, 10*time.Second)
+	e.meta.Hist("ping-run")
+	e.meta.Count(family, fmt.Sprintf("P%d", rounds), true, map[string]interface{}{"family": family, "rounds": rounds, "stalled": st})
+	e.emit(Case{Family: family, Ping: rounds, Stalled: st})
+}
+
+func (e *emitter) addCtxErr(family, kind string) {
+	k := runCtxErr(kind)
+	e.meta.Hist("ctxerr:" + kind + "->" + k)
+	e.meta.Count(family, "C"+kind, false, nil)
+	e.emit(Case{Family: family, CtxErr: kind, ErrKind: k})
+}
+
 // replayCase re-executes the inputs of c.
 func (e *emitter) replayCase(family string, c Case) {
 	switch {
+	case c.Bulk != nil:
+		e.addBulk(family, c.Bulk)
+	case c.Burst != nil:
+		e.addBurst(family, *c.Burst)
+	case c.Ping > 0:
+		e.addPing(family, c.Ping)
+	case c.CtxErr != "":
+		e.addCtxErr(family, c.CtxErr)
 	case c.S != nil:
 		cfg := *c.S
 		dec := cfg.Sched
@@ -824,6 +1190,13 @@ func canonicalSeq(ops []Op) bool {
 func randSeq(r *vh.Rand, maxOps int) []Op {
 	n := 4 + r.Intn(maxOps-3)
 	items := 2 + r.Intn(2)
+	// a third of the cases use items of mixed Go types (string "1", int64 1,
+	// int 1, nil, two pointers to equal structs, a struct value)
+	pool := []int{0, 1, 2}
+	if r.Chance(1, 3) {
+		pool = []int{1, 3, 4, 5, 6, 7, 8}
+		items = 3 + r.Intn(5)
+	}
 	ops := make([]Op, 0, n+6)
 	closeW := 1
 	if r.Chance(1, 3) {
@@ -832,7 +1205,7 @@ func randSeq(r *vh.Rand, maxOps int) []Op {
 	for i := 0; i < n; i++ {
 		switch r.Pick(40, 12, 6, 10, closeW, 6, 3) {
 		case 0:
-			ops = append(ops, Op{K: "insert", I: r.Intn(items)})
+			ops = append(ops, Op{K: "insert", I: pool[r.Intn(items)]})
 		case 1:
 			ops = append(ops, Op{K: "next", C: "bg"})
 		case 2:
@@ -847,7 +1220,7 @@ func randSeq(r *vh.Rand, maxOps int) []Op {
 			ops = append(ops, Op{K: "isclosed"})
 		}
 	}
-	return append(ops, drainSuffix(3)...)
+	return append(ops, drainSuffix(items)...)
 }
 
 type seqJob struct {
@@ -871,12 +1244,19 @@ func (e *emitter) runSeqJobs(jobs []seqJob, workers int) {
 				if k >= len(jobs) {
 					return
 				}
+				if tooManyHangs() {
+					continue
+				}
 				jobs[k].ran, jobs[k].obs = runSeq(jobs[k].ops, true)
 			}
 		}()
 	}
 	wg.Wait()
 	for _, j := range jobs {
+		if j.ran == nil {
+			e.meta.Hist("skipped-after-hangs")
+			continue
+		}
 		e.addSeqDone(j.family, j.ran, j.obs)
 	}
 }
@@ -887,6 +1267,10 @@ func (e *emitter) dfs(family string, cfg SchedCfg, maxDepth, maxLeaves int) (lea
 	complete = true
 	var rec func(prefix []int)
 	rec = func(prefix []int) {
+		if tooManyHangs() {
+			complete = false
+			return
+		}
 		if leaves >= maxLeaves {
 			complete = false
 			return
@@ -947,6 +1331,10 @@ func randCfg(r *vh.Rand) SchedCfg {
 }
 
 func (e *emitter) randomWalk(family string, r *vh.Rand) {
+	if tooManyHangs() {
+		e.meta.Hist("skipped-after-hangs")
+		return
+	}
 	cfg := randCfg(r)
 	// weights: keep the closer / canceller from always going first
 	res := runSched(cfg, func(ready []int, n int) int {
@@ -1109,6 +1497,41 @@ func main() {
 	}
 	for i := 0; i < nwalk; i++ {
 		e.randomWalk("S-random", r.Fork())
+	}
+
+	// bulk: duplicate counts and queue lengths around powers of two
+	for _, n := range []int{255, 256, 257, 1000, 65535, 65536, 65537} {
+		e.addBulk("bulk-dup", [][2]int{{0, 1}, {1, n}, {0, 2}, {2, 1}})
+	}
+	for _, n := range []int{1, 2, 63, 64, 65, 127, 128, 129, 300} {
+		var sc [][2]int
+		for k := 0; k < n; k++ {
+			sc = append(sc, [2]int{10 + k, 1 + k%2})
+		}
+		sc = append(sc, [2]int{10, 3})
+		e.addBulk("bulk-many", sc)
+	}
+	// mixed item types, exhaustively in pairs: x, y, x again
+	ex := []int{1, 3, 4, 5, 6, 7, 8}
+	for _, x := range ex {
+		for _, y := range ex {
+			e.addBulk("bulk-types", [][2]int{{x, 1}, {y, 2}, {x, 1}})
+		}
+	}
+	e.addCtxErr("ctxerr", "cancelled")
+	e.addCtxErr("ctxerr", "short")
+	// burst / ping: real concurrency
+	nburst, nping, pingRounds := 300, 4, 20000
+	if o.Thorough() {
+		nburst, nping, pingRounds = 5000, 20, 100000
+	}
+	for i := 0; i < nburst; i++ {
+		rr := r.Fork()
+		items := []int{0, 1, 5, 6}[:1+rr.Intn(3)]
+		e.addBurst("burst", BurstCfg{Producers: 2 + rr.Intn(6), PerProd: 1 + rr.Intn(3), Items: items, Closers: 2 + rr.Intn(3)})
+	}
+	for i := 0; i < nping; i++ {
+		e.addPing("ping", pingRounds)
 	}
 
 	// stress
